@@ -17,6 +17,7 @@ import Pds.Model.CmsHeap
 import Pds.Model.TDigest
 import Pds.Model.Serde
 import Pds.Model.Sizing
+import Pds.Model.Alloc
 
 namespace Pds.Driver
 open Pds Pds.Script
@@ -256,6 +257,18 @@ def opHll (s : DState) (h : Hll.St) (bh : HashCfg) (op : String) (a : List Nat) 
   | "hll.addh", [k] => match Hll.addHashed h k with
     | some h' => .upd (.hll h' bh)
     | none => .panic
+  | "hll.addmany", [seed, n] =>
+    let rec go (fuel : Nat) (r : Rng) (h : Hll.St) : Option Hll.St :=
+      match fuel with
+      | 0 => some h
+      | fuel + 1 =>
+        let (w, r) := r.nextU64
+        match Hll.addHashed h w.toNat with
+        | some h' => go fuel r h'
+        | none => none
+    match go n { state := UInt64.ofNat seed } h with
+    | some h' => .upd (.hll h' bh)
+    | none => .panic
   | "hll.merge", [j] => match s.insts[j]? with
     | some (.hll o obh) =>
       match Hll.merge h o with
@@ -493,7 +506,15 @@ def step1 (s : DState) (toks : List String) : DState × String :=
       -- numeric view of the arguments (non-numeric tokens, e.g. float bit patterns, map to 0 and
       -- are re-read from `raw` by the ops that use them)
       let args := raw.map fun t => t.toNat?.getD 0
-      if isCtor op then
+      if op == "mem.cuckoo" then
+        match args with
+        | [bs, nb, lf] => (s, toString (Alloc.cuckooBytes bs nb lf))
+        | _ => (s, "bad-op")
+      else if op == "mem.qf" then
+        match args with
+        | [q, r] => (s, toString (Alloc.qfBytes q r))
+        | _ => (s, "bad-op")
+      else if isCtor op then
         match ctor s op args raw with
         | some (some i, a) => ({ s with insts := s.insts.insert id i }, a)
         | some (none, _) => ({ s with insts := s.insts.insert id .poisoned }, "panic")
